@@ -407,7 +407,7 @@ func scenMatch(rng *rand.Rand, tr *sim.Trace, seg int, events int) {
 
 // inRaw injects prebuilt bytes that are not a query and logs the In line.
 func (h *H) inRaw(src *net.UDPAddr, b []byte, y string, t []byte) {
-	h.tr.Emit(sim.M{"seg": h.seg, "e": "In", "src": aj(src), "drop": h.dropped(src), "dec": true, "y": y, "q": "",
+	h.tr.Emit(sim.M{"seg": h.seg, "e": "In", "src": h.ajOf(src), "drop": h.dropped(src), "dec": true, "y": y, "q": "",
 		"t": sim.Hex(t), "hasA": false, "veto": false, "tok": "", "ih": "", "port": -1, "implied": false, "want4": false,
 		"want6": false, "ro": false})
 	if !h.conn.Inject(b, src, 10*time.Second) {
